@@ -341,7 +341,9 @@ func (s *muxerStream) handleMediaPlaylist(w http.ResponseWriter, r *http.Request
 						return nil
 					}
 
-					if s.hasContent() && s.hasPart(msnint, partint) {
+					// without _HLS_part, the playlist must contain the whole segment
+					if s.hasContent() &&
+						((part != "" && s.hasPart(msnint, partint)) || (part == "" && msnint < s.nextSegmentID)) {
 						break
 					}
 
